@@ -1189,6 +1189,25 @@ def Encoder_EncodeMapEntryHeader.body (fuel : Nat) : Encoder_EncodeMapEntryHeade
 def Encoder_EncodeMapEntryHeader (fuel : Nat) (e_p : Bytes) (e_offset : BitVec 64) (tag : BitVec 64) (size : BitVec 64) : Go.Out Encoder_EncodeMapEntryHeader.St Encoder_EncodeMapEntryHeader.R :=
   Encoder_EncodeMapEntryHeader.body fuel { e_p := e_p, e_offset := e_offset, tag := tag, size := size }
 
+/-! ### `Encoder.EncodeRaw` (/repo/encoder.go:368:1) -/
+
+structure Encoder_EncodeRaw.St where
+  e_p : Bytes
+  e_offset : BitVec 64
+  d : Bytes
+  l : BitVec 64 := 0#64
+
+abbrev Encoder_EncodeRaw.R := Unit
+
+/-- the body of `Encoder_EncodeRaw`, statement by statement -/
+def Encoder_EncodeRaw.body (fuel : Nat) : Encoder_EncodeRaw.St → Go.Out Encoder_EncodeRaw.St Encoder_EncodeRaw.R :=
+  (Go.seq (Go.seq (fun s => .next { s with l := (BitVec.ofNat 64 s.d.length) }) (fun s => if (BitVec.slt 0#64 s.l) then (Go.seq (fun s => if ((s.e_offset).toNat ≤ s.e_p.length) then .next { s with e_p := Go.copyAt s.e_p (s.e_offset).toNat s.d } else .panic)
+    (fun s => .next { s with e_offset := (s.e_offset + s.l) })) s else Go.skip s))
+    (fun s => .ret () s))
+
+def Encoder_EncodeRaw (fuel : Nat) (e_p : Bytes) (e_offset : BitVec 64) (d : Bytes) : Go.Out Encoder_EncodeRaw.St Encoder_EncodeRaw.R :=
+  Encoder_EncodeRaw.body fuel { e_p := e_p, e_offset := e_offset, d := d }
+
 /-! ### `Encoder.EncodePackedBool` (/repo/encoder.go:117:1) -/
 
 structure Encoder_EncodePackedBool.St where
